@@ -52,3 +52,15 @@ Example C17_example :
   add_slash (lit "/" ++ ["009"] ++ lit "/example.com") (lit "a=b") = Some (lit "/example.com/?a=b")
   /\ safe (lit "/" ++ ["009"] ++ lit "/example.com/") = false.
 Proof. split; vm_compute; reflexivity. Qed.
+
+(* ---- the directory redirect of the static-file handler (Echo.Static / Group.Static / StaticFS), from the statement-level
+   translation of its closure (Gen/Src_staticdir.v, re-translated from echo_fs.go on every run): whatever the request, the
+   file system and the unescaper, the only Location this handler ever passes to c.Redirect is sanitizeURI(URL.Path + "/") *)
+From Coq Require Import String ZArith.
+From Echo Require Import Base.Sx Base.GoLoop Gen.Src_staticdir Mw.StaticDirSrc.
+
+Theorem C17_source_dir_redirect_sanitised : forall unescape stat sanitize p urlpath,
+  let '(st', _) := GoLoop.run (ssym p urlpath) (spred unescape stat sanitize) src_static_dir_handler_results src_static_dir_handler StaticDirSrc.start in
+  forall args, In ("c.Redirect"%string, args) (events st') -> args = [VZ 301%Z; VS (sanitize (urlpath ++ lit "/")%list)].
+Proof. exact src_static_dir_redirects_sanitised. Qed.
+Print Assumptions C17_source_dir_redirect_sanitised.
